@@ -95,6 +95,22 @@ func listingOrderRule(r *core.Report, rule string, f *core.Func, want token.Toke
 					continue
 				}
 				if si.Op != want {
+					// the opposite strict order followed by slices.Reverse of the same slice
+					reversed := false
+					if (si.Op == token.LSS && want == token.GTR) || (si.Op == token.GTR && want == token.LSS) {
+						for _, rv := range stmtNodes(g) {
+							for _, c := range nodeCalls(rv) {
+								if strings.HasSuffix(core.CalleeName(info, c), "slices.Reverse") && len(c.Args) == 1 && core.ObjOf(info, c.Args[0]) == x &&
+									si.keyIsElement() && g.Dominates(n, rv) && g.Dominates(rv, rn) && !reassignedBetween(g, info, n, rn, x) {
+									reversed = true
+								}
+							}
+						}
+					}
+					if reversed {
+						okSort = true
+						continue
+					}
 					why = fmt.Sprintf("comparator orders %s, want %s", si.Op, want)
 					continue
 				}
